@@ -13,6 +13,7 @@ src/String.c, src/Num.c and src/Show.c on every run (called by gen_params.py).
   rt_scan_float_l_rule : bool      scan_from_with stores through double* iff the directive contains 'l'
   rt_scan_int_signext : bool       scan_from_with sign-extends what a d/i directive without a length
                                    modifier stored into its `long tmp` (false = zero-extension, F6)
+  rt_scan_int_signext_narrow : bool  the same for h / hh directives ((short)tmp, (signed char)tmp)
   rt_scan_lit_measures : bool      literal pieces of the scan format advance pos by what scanf consumed
                                    ("%n" appended); false = by the length of the piece (D22)
   rt_scan_pct_measures : bool      the "%%" piece advances pos by what scanf consumed; false = by 2 (D23)
@@ -148,7 +149,7 @@ def generate(repo, emit, src, func_body):
     sh = src('src/Show.c')
     b = func_body(sh, r'\bint\s+scan_from_with\s*\([^)]*\)\s*\{')
     if not b:
-        emit('rt_scan_float_l_rule', None); emit('rt_scan_int_signext', None)
+        emit('rt_scan_float_l_rule', None); emit('rt_scan_int_signext', None); emit('rt_scan_int_signext_narrow', None)
         emit('rt_scan_lit_measures', None); emit('rt_scan_pct_measures', None)
         return
     nb = re.sub(r'\s+', ' ', b)
@@ -177,19 +178,26 @@ def generate(repo, emit, src, func_body):
     emit('rt_scan_float_l_rule', boolean('rt_scan_float_l_rule', True) if fl else None)
     ib = re.search(r'strchr\s*\(\s*"diouxX"\s*,\s*\*fmt\s*\)\s*\)\s*\{\s*long\s+tmp\s*=\s*0\s*;\s*int\s+err\s*=\s*format_from\s*\(\s*input\s*,\s*pos\s*,\s*fmt_buf\s*,\s*&tmp\s*,\s*&off\s*\)\s*;'
                    r'(.*?)assign\s*\(\s*a\s*,\s*\$I\s*\(\s*tmp\s*\)\s*\)\s*;', b, re.S)
+    def both(a, b_, ca='', cb=''):
+        emit('rt_scan_int_signext', None if a is None else boolean('rt_scan_int_signext', a, ca))
+        emit('rt_scan_int_signext_narrow', None if b_ is None else boolean('rt_scan_int_signext_narrow', b_, cb))
     if not ib:
-        emit('rt_scan_int_signext', None)
+        both(None, None)
     else:
         mid = re.sub(r'\s+', ' ', ib.group(1))
         base = re.fullmatch(r' ?if \(err < 1\) \{ throw\(FormatError, "Unable to input Int!"\); \} pos \+= off; ?(.*)', mid)
         if not base:
-            emit('rt_scan_int_signext', None)
+            both(None, None)
         else:
-            rest = base.group(1).strip()
+            rest = re.sub(r'\s+', ' ', base.group(1).strip())
             fixed = ('if (strchr("di", *fmt) and not strpbrk(fmt_buf, "hljztqL")) { tmp = (int)tmp; }')
+            fixed2 = ('if (strchr("di", *fmt) and not strpbrk(fmt_buf, "ljztqL")) { '
+                      'tmp = strstr(fmt_buf, "hh") ? (signed char)tmp : strchr(fmt_buf, \'h\') ? (short)tmp : (int)tmp; }')
             if rest == '':
-                emit('rt_scan_int_signext', boolean('rt_scan_int_signext', False, 'source: the long is handed on as stored (zero-extension of an int store)'))
-            elif re.sub(r'\s+', ' ', rest) == fixed:
-                emit('rt_scan_int_signext', boolean('rt_scan_int_signext', True, 'source: tmp = (int)tmp for d/i without a length modifier'))
+                both(False, False, 'source: the long is handed on as stored (zero-extension of an int store)', 'same')
+            elif rest == fixed:
+                both(True, False, 'source: tmp = (int)tmp for d/i without a length modifier', 'source: h / hh results are handed on as stored')
+            elif rest == fixed2:
+                both(True, True, 'source: tmp = (int)tmp for d/i without a length modifier', 'source: (short)tmp for h, (signed char)tmp for hh')
             else:
-                emit('rt_scan_int_signext', None)
+                both(None, None)
